@@ -152,6 +152,7 @@ func ParseNDStream(r io.Reader, res chan<- Stream, reuse <-chan *ParsedJson) {
 	}()
 	go func() {
 		defer close(queue)
+		simChunks := 0
 		for {
 			tmp := tmpPool.Get().([]byte)
 			tmp = tmp[:tmpSize]
@@ -176,9 +177,12 @@ func ParseNDStream(r io.Reader, res chan<- Stream, reuse <-chan *ParsedJson) {
 			if len(tmp) > 0 {
 				result := make(chan Stream, 0)
 				queue <- result
+				simChunk := simChunks
+				simChunks++
 				go func() {
 					var pj internalParsedJson
 					pj.copyStrings = true
+					simHook(simNDChunkStart, &pj, simChunk)
 					select {
 					case v := <-reuse:
 						if cap(v.Message) >= tmpSize+1024 {
@@ -190,6 +194,7 @@ func ParseNDStream(r io.Reader, res chan<- Stream, reuse <-chan *ParsedJson) {
 					default:
 					}
 					parseErr := pj.parseMessage(tmp, true)
+					simHook(simNDChunkParsed, &pj, simChunk)
 					if parseErr != nil {
 						result <- Stream{
 							Value: nil,
@@ -204,6 +209,7 @@ func ParseNDStream(r io.Reader, res chan<- Stream, reuse <-chan *ParsedJson) {
 					}
 				}()
 			} else {
+				simProbe(simProbeNDBlankChunk)
 				tmpPool.Put(tmp)
 			}
 			if err != nil {
